@@ -168,7 +168,7 @@ type c10Kdc struct {
 func TestC10_KDC(t *testing.T) {
 	dir := t.TempDir()
 	cf := filepath.Join(dir, "krb5.conf")
-	k, err := kdc.Start("reply", []byte{0, 0, 0, 3, 1, 2, 3}, false)
+	k, err := kdc.Start("reply-at-once", []byte{0, 0, 0, 3, 1, 2, 3}, false) // answers whatever it is sent: hostile length prefixes must not stall the run
 	if err != nil {
 		t.Fatal(err)
 	}
@@ -249,7 +249,7 @@ func genC10Http(t *rapid.T) c10Http {
 	for i, n := 0, rapid.IntRange(1, 6).Draw(t, "n"); i < n; i++ {
 		var sb strings.Builder
 		fmt.Fprintf(&sb, "%s %s %s\r\n", rapid.SampledFrom(c10Methods).Draw(t, "method"), rapid.SampledFrom(c10Paths).Draw(t, "path"), rapid.SampledFrom([]string{"HTTP/1.1", "HTTP/1.0", "HTTP/2.0", "HTTP/1.1 ", "FTP/1.1", ""}).Draw(t, "proto"))
-		sb.WriteString("Host: gw\r\n")
+		sb.WriteString("Host: gw\r\nConnection: close\r\n")
 		for j, m := 0, rapid.IntRange(0, 5).Draw(t, "nhdr"); j < m; j++ {
 			h := rapid.SampledFrom([]string{"Authorization: NTLM", "Authorization: Negotiate", "Authorization: Basic", "Authorization: Basic Og==", "Authorization: NTLM TlRMTVNTUAABAAAA", "Authorization: Bearer x",
 				"Cookie: RDPGWSESSION=abc", "Cookie: RDPGWSESSION=" + strings.Repeat("QUJD", 300), "Cookie: =;;=", "X-Forwarded-For: ,,,", "X-Forwarded-For: " + strings.Repeat("1.2.3.4, ", 200),
@@ -281,7 +281,7 @@ func TestC10_HTTP(t *testing.T) {
 			return viol("bin/start", "%v", err)
 		}
 		for _, r := range c.Reqs {
-			gwc.RawHTTP(gwc.Target{Addr: in.Addr}, []byte(r), 700*time.Millisecond)
+			gwc.RawHTTP(gwc.Target{Addr: in.Addr}, []byte(r), 120*time.Millisecond)
 			if v := binHealthQuick(in); v != nil {
 				return v
 			}
